@@ -421,6 +421,13 @@ class DownloadNode:
             when = now()
             if isinstance(result, Failure):
                 # this catches failures in decode or ciphertext hash
+                if (self._active_segment is not None
+                    and self._active_segment.segnum == segnum):
+                    # the (already stopped) fetcher for this segment is
+                    # finished: forget it, otherwise _start_new_segment()
+                    # below is a no-op and every later get_segment() on this
+                    # node waits forever
+                    self._active_segment = None
                 for (d,c,seg_ev) in self._extract_requests(segnum):
                     seg_ev.error(when)
                     eventually(self._deliver, d, c, result)
